@@ -1,5 +1,278 @@
+import SamVerif.Model.CompileGate
+import SamVerif.Model.MatchLower
+import SamVerif.Model.OptKernel
+import SamVerif.Model.Backends
 import Driver.Util
-/-! Line-protocol driver for property C03 (model side). Not implemented yet. -/
+/-! Line-protocol driver for property C03 (model side).
+  gate ENTRY_PRESENT PARSE_ERRS CHECK_ERRS     -> lowered | rejected | invalid-entry
+  fold OP a b | merge OUTER INNER c1 c2 | trip G i0 step bound      (as drv-c02)
+  str HEX(raw literal inside, UTF-8)           -> rejected | closed | open
+  match T n <def>* Y t A n <pat>* V n <val>*   -> typed=b nodup=b crash=b acc=b ends=a0,fb,ft,…
+    <def> ::= P | E cls n (name k type*)* | S n (name type)*
+    <pat> ::= t nfields k <pat>* | o nfields k (order <pat>)* | v cls name k <pat>* | i | w | r k <pat>*
+    <val> ::= c cls name k <val>* | s k <val>* | p n
+-/
+namespace Driver.C03
+open Driver SamVerif SamVerif.Useful SamVerif.MatchLower
+
+def opOf : String → Option Opt.Op
+  | "mul" => some .mul | "div" => some .div | "mod" => some .mod | "add" => some .add
+  | "sub" => some .sub | "and" => some .land | "or" => some .lor | "shl" => some .shl
+  | "shr" => some .shr | "xor" => some .xor | "lt" => some .lt | "le" => some .le
+  | "gt" => some .gt | "ge" => some .ge | "eq" => some .eq | "ne" => some .ne
+  | _ => none
+
+def opName : Opt.Op → String
+  | .mul => "mul" | .div => "div" | .mod => "mod" | .add => "add" | .sub => "sub"
+  | .land => "and" | .lor => "or" | .shl => "shl" | .shr => "shr" | .xor => "xor"
+  | .lt => "lt" | .le => "le" | .gt => "gt" | .ge => "ge" | .eq => "eq" | .ne => "ne"
+
+def guardOf : String → Option Opt.Guard
+  | "lt" => some .lt | "le" => some .le | "gt" => some .gt | "ge" => some .ge | _ => none
+
+/-! ### token-stream parsers for the `match` protocol -/
+
+abbrev P (α : Type) := List String → Option (α × List String)
+
+def pNat : P Nat
+  | t :: rest => t.toNat?.map (fun n => (n, rest))
+  | [] => none
+
+partial def pMany {α : Type} (p : P α) : Nat → P (List α)
+  | 0, ts => some ([], ts)
+  | n + 1, ts =>
+    match p ts with
+    | none => none
+    | some (x, ts') =>
+      match pMany p n ts' with
+      | none => none
+      | some (xs, ts'') => some (x :: xs, ts'')
+
+def pVariant : P (Nat × List Nat) := fun ts =>
+  match pNat ts with
+  | none => none
+  | some (name, ts) =>
+    match pNat ts with
+    | none => none
+    | some (k, ts) =>
+      match pMany pNat k ts with
+      | none => none
+      | some (tys, ts) => some ((name, tys), ts)
+
+def pField : P (Nat × Nat) := fun ts =>
+  match pNat ts with
+  | none => none
+  | some (name, ts) =>
+    match pNat ts with
+    | none => none
+    | some (ty, ts) => some ((name, ty), ts)
+
+def pDef : P Def
+  | "P" :: ts => some (.prim, ts)
+  | "E" :: ts =>
+    match pNat ts with
+    | none => none
+    | some (cls, ts) =>
+      match pNat ts with
+      | none => none
+      | some (n, ts) =>
+        match pMany pVariant n ts with
+        | none => none
+        | some (vs, ts) => some (.enum cls vs, ts)
+  | "S" :: ts =>
+    match pNat ts with
+    | none => none
+    | some (n, ts) =>
+      match pMany pField n ts with
+      | none => none
+      | some (fs, ts) => some (.struct fs, ts)
+  | _ => none
+
+partial def pPat : P CPat
+  | "i" :: ts => some (.id, ts)
+  | "w" :: ts => some (.wild, ts)
+  | "t" :: ts =>
+    match pNat ts with
+    | none => none
+    | some (nf, ts) =>
+      match pNat ts with
+      | none => none
+      | some (k, ts) =>
+        match pMany pPat k ts with
+        | none => none
+        | some (ps, ts) => some (.tuple nf ps, ts)
+  | "o" :: ts =>
+    match pNat ts with
+    | none => none
+    | some (nf, ts) =>
+      match pNat ts with
+      | none => none
+      | some (k, ts) =>
+        let pEl : P (Nat × CPat) := fun ts =>
+          match pNat ts with
+          | none => none
+          | some (o, ts) =>
+            match pPat ts with
+            | none => none
+            | some (p, ts) => some ((o, p), ts)
+        match pMany pEl k ts with
+        | none => none
+        | some (els, ts) => some (.object nf (els.map (·.1)) (els.map (·.2)), ts)
+  | "v" :: ts =>
+    match pNat ts with
+    | none => none
+    | some (cls, ts) =>
+      match pNat ts with
+      | none => none
+      | some (name, ts) =>
+        match pNat ts with
+        | none => none
+        | some (k, ts) =>
+          match pMany pPat k ts with
+          | none => none
+          | some (ps, ts) => some (.variant ⟨cls, name⟩ ps, ts)
+  | "r" :: ts =>
+    match pNat ts with
+    | none => none
+    | some (k, ts) =>
+      match pMany pPat k ts with
+      | none => none
+      | some (ps, ts) => some (.or ps, ts)
+  | _ => none
+
+partial def pVal : P Val
+  | "p" :: ts => (pNat ts).map (fun (n, ts) => (.prim n, ts))
+  | "s" :: ts =>
+    match pNat ts with
+    | none => none
+    | some (k, ts) =>
+      match pMany pVal k ts with
+      | none => none
+      | some (vs, ts) => some (.con none vs, ts)
+  | "c" :: ts =>
+    match pNat ts with
+    | none => none
+    | some (cls, ts) =>
+      match pNat ts with
+      | none => none
+      | some (name, ts) =>
+        match pNat ts with
+        | none => none
+        | some (k, ts) =>
+          match pMany pVal k ts with
+          | none => none
+          | some (vs, ts) => some (.con (some ⟨cls, name⟩) vs, ts)
+  | _ => none
+
+def sigOf (defs : List Def) : Sig := fun t => defs.getD t .prim
+
+def cxOf (defs : List Def) : Cx := fun cls =>
+  match defs.find? (fun d => match d with | .enum c _ => c == cls | _ => false) with
+  | some (.enum _ vs) => vs.map (fun v => (v.1, v.2.length))
+  | _ => []
+
+def showEnd : MatchEnd → String
+  | .arm i => "a" ++ toString i
+  | .fallback => "fb"
+  | .fault => "ft"
+
+def b01 (b : Bool) : String := if b then "1" else "0"
+
+def runMatchLine (ts : List String) : Option String :=
+  match ts with
+  | "T" :: ts =>
+    match pNat ts with
+    | none => none
+    | some (n, ts) =>
+      match pMany pDef n ts with
+      | none => none
+      | some (defs, "Y" :: ts) =>
+        match pNat ts with
+        | some (ty, "A" :: ts) =>
+          match pNat ts with
+          | none => none
+          | some (na, ts) =>
+            match pMany pPat na ts with
+            | some (arms, "V" :: ts) =>
+              match pNat ts with
+              | none => none
+              | some (nv, ts) =>
+                match pMany pVal nv ts with
+                | none => none
+                | some (vals, _) =>
+                  let sig := sigOf defs
+                  let cx := cxOf defs
+                  let typed := cpatTyAll sig arms ty
+                  let acc := match incompleteCounterexampleF cx 100000 (abstractArms arms) with
+                    | some none => "1"
+                    | some (some _) => "0"
+                    | none => "fuel"
+                  let ends := vals.map (fun v =>
+                    if hasTy sig v ty then showEnd (runMatch (lowerMatch arms) v) else "illtyped-value")
+                  some ("typed=" ++ b01 typed ++ " nodup=" ++ b01 (noDupFieldsL arms) ++
+                    " crash=" ++ b01 (lowerCrashAll arms) ++ " acc=" ++ acc ++
+                    " ends=" ++ (if ends.isEmpty then "-" else ",".intercalate ends))
+            | _ => none
+        | _ => none
+      | _ => none
+  | _ => none
+
+def textOfHex (h : String) : Option Backends.Text :=
+  match String.fromUTF8? (ByteArray.mk (bytesOfHex h).toArray) with
+  | some s => some (s.toList.map Char.toNat)
+  | none => none
+
+def step (_ : Unit) (line : String) : Unit × String :=
+  let ans : String :=
+    match words line with
+    | ["gate", present, pe, ce] =>
+      match present.toNat?, pe.toNat?, ce.toNat? with
+      | some p, some pe, some ce =>
+        match Gate.compileSources { modules := [0], entries := if p = 1 then [0] else [1],
+                                    parseErrors := pe, checkErrors := ce } with
+        | .lowered => "lowered"
+        | .rejected => "rejected"
+        | .invalidEntry => "invalid-entry"
+      | _, _, _ => "bad-line"
+    | ["fold", o, a, b] =>
+      match opOf o, a.toInt?, b.toInt? with
+      | some op, some a, some b =>
+        match Opt.evalImpl op a b with
+        | .val v => "v " ++ toString v
+        | .nofold => "nofold"
+        | .panic => "panic"
+      | _, _, _ => "bad-line"
+    | ["merge", o, i, c1, c2] =>
+      match opOf o, opOf i, c1.toInt?, c2.toInt? with
+      | some o, some i, some c1, some c2 =>
+        match Opt.mergeBinary o i c1 c2 with
+        | .merged op c => "m " ++ opName op ++ " " ++ toString c
+        | .none => "none"
+        | .panic => "panic"
+      | _, _, _, _ => "bad-line"
+    | ["trip", g, i0, st, b] =>
+      match guardOf g, i0.toInt?, st.toInt?, b.toInt? with
+      | some g, some i0, some st, some b =>
+        match Opt.tripCount g i0 st b with
+        | .count n => "n " ++ toString n
+        | .unknown => "none"
+        | .panic => "panic"
+      | _, _, _, _ => "bad-line"
+    | ["str", h] =>
+      match textOfHex h with
+      | none => "bad-line"
+      | some raw =>
+        if Backends.lexAccepts raw then
+          (if (Backends.tsDecode (Backends.content raw)).isSome then "closed" else "open")
+        else "rejected"
+    | "match" :: ts => (runMatchLine ts).getD "bad-line"
+    | _ => "bad-op"
+  ((), ans)
+
+def run : IO Unit := runLoop () step
+
+end Driver.C03
+
 def main (_args : List String) : IO UInt32 := do
-  IO.eprintln "drv-c03: not implemented yet"
-  return 2
+  Driver.C03.run
+  return 0
